@@ -715,7 +715,7 @@ fn codec_tags(st: &mut Stats, case: u64, rng: &mut Rng, what: &str, raw: &[u8], 
 
 pub fn run(cfg: &Cfg) -> Report {
     let n = cfg.scale(150, 7500);
-    let stats = run_honest(cfg, 27, n, &[Frag::Seq, Frag::Stream], |c, case, rng, st| {
+    let mut stats = run_honest(cfg, 27, n, &[Frag::Seq, Frag::Stream], |c, case, rng, st| {
         let produced: Vec<&Step> = c.history.steps.iter().filter(|s| s.produced_new_data() && !s.out.data.is_empty()).collect();
         let (cur_dv, cur_iv) = (air_interpreter_data::data_version().to_string(), air::interpreter_version().to_string());
         // 1. every data of the history; the requests of every run as the host sees them
@@ -780,6 +780,7 @@ pub fn run(cfg: &Cfg) -> Report {
             host_results(st, case, rng);
         }
     });
+    crate::sanitize::passes_for("C27", cfg, &mut stats);
     Report {
         prop: P,
         level: "exploration",
